@@ -59,6 +59,9 @@ fn shared_cell() -> &'static AtomicU64 {
     unsafe { &*p }
 }
 
+/// histories of this process that were killed by the alarm so far
+static TIMEOUTS: std::sync::atomic::AtomicU32 = std::sync::atomic::AtomicU32::new(0);
+
 pub fn run_isolated(
     idx: usize,
     h: &History,
@@ -86,7 +89,14 @@ pub fn run_isolated(
                 libc::setrlimit(libc::RLIMIT_AS, &lim);
             }
             if limits.timeout_secs > 0 {
-                libc::alarm(limits.timeout_secs);
+                // once two histories of this run have hung, the remaining ones get a much shorter leash: a change
+                // that makes many histories hang must not cost a minute each (the finding is already in hand)
+                let t = if TIMEOUTS.load(Ordering::SeqCst) >= 2 {
+                    std::cmp::max(3, limits.timeout_secs / 12)
+                } else {
+                    limits.timeout_secs
+                };
+                libc::alarm(t);
             }
         }
         let code = match run_one(idx, h, out) {
@@ -129,6 +139,7 @@ pub fn run_isolated(
         }
     } else {
         let word = if libc::WIFSIGNALED(status) && libc::WTERMSIG(status) == libc::SIGALRM {
+            TIMEOUTS.fetch_add(1, Ordering::SeqCst);
             "timeout"
         } else {
             "abort"
